@@ -36,6 +36,7 @@ FLOAT = Ty('float')
 BYTEARRAY = Ty('list', INT, 'bytearray')       # mutable; elements range-checked at stores (ValueError)
 BYTES = Ty('list', INT, 'bytes')  # immutable byte string: a list object that the subset never mutates
 OPAQUE = Ty('opaque')             # values never inspected (line ids, match objects ...)
+CFG = Ty('cfg')                   # a node of the parsed YAML/JSON configuration (dict / list / scalar), read-only
 
 
 def ref(c): return Ty('ref', c)
@@ -56,7 +57,7 @@ def opt(t):
 
 
 def is_reflike(t):
-    return t.kind in ('ref', 'list', 'dict', 'set', 'opaque')
+    return t.kind in ('ref', 'list', 'dict', 'set', 'opaque', 'cfg')
 
 
 _dt_cache = {}
@@ -143,10 +144,12 @@ class TypeEnv:
         if isinstance(n, ast.Name):
             nm = n.id
             prim = {'int': INT, 'bool': BOOL, 'str': STR, 'float': FLOAT, 'bytearray': BYTEARRAY,
-                    'bytes': BYTES, 'None': NONE, 'opaque': OPAQUE}
+                    'bytes': BYTES, 'None': NONE, 'opaque': OPAQUE, 'cfg': CFG}
             if nm in prim:
                 return prim[nm]
-            if nm in ('list', 'dict', 'set'):
+            if nm in ('dict', 'cfg'):
+                return CFG
+            if nm in ('list', 'set'):
                 return None
             if nm in self.repo.classes:
                 ci = self.repo.classes[nm]
